@@ -98,6 +98,7 @@ Example C19_nonvacuous_first_round :
   yielded (W_ex []) ex_fs1 ex_ts1 0 = [is_int_p] /\ separates (W_ex []) is_int_p ex_fs1 ex_ts1 /\ In is_int_p type_tests.
 Proof. exact ex_first_round. Qed.
 
+Print Assumptions C19_nonvacuous_first_round.
 Example C19_nonvacuous_second_round :
   yielded (W_ex []) ex_fs2 ex_ts2 0 = [] /\
   In (POr is_int_p is_str_p) (yielded (W_ex []) ex_fs2 ex_ts2 1) /\
@@ -106,12 +107,16 @@ Example C19_nonvacuous_second_round :
           (yielded (W_ex []) ex_fs2 ex_ts2 1) = true.
 Proof. exact ex_second_round. Qed.
 
+Print Assumptions C19_nonvacuous_second_round.
 Example C19_nonvacuous_bool_is_int :
   beval (W_ex []) is_int_p (VQ KBool 1%Q true) = true /\
   stream_upto (W_ex []) [VQ KBool 1%Q true] [vint 3] 2 = [].
 Proof. exact ex_bool_is_int. Qed.
 
+Print Assumptions C19_nonvacuous_bool_is_int.
 Example C19_nonvacuous_round1 :
   List.length (round 0) = 14 /\ List.length (round 1) = 364 /\
   existsb (peq (POr is_int_p is_str_p)) (round 1) = true.
 Proof. split; [apply round_sizes|]. split; [apply round_sizes|apply ex_round1]. Qed.
+
+Print Assumptions C19_nonvacuous_round1.
